@@ -480,12 +480,24 @@ func (c *ClusterInfo) MatchAttributes(requestAttributes authorizer.Attributes) (
 	if len(flowControlName) == 0 {
 		flowControlName = "system-default"
 	}
+	// every dispatch policy keeps its own round-robin cursors: two policies that list the
+	// same upstreams would otherwise share one cursor, and requests that alternate
+	// between them would always land on the same endpoint. A policy has no name, it is
+	// identified by its position in spec.dispatchPolicies.
+	policyIndex := 0
+	for i := range policies {
+		if policy == &policies[i] {
+			policyIndex = i
+			break
+		}
+	}
 	result := &endpointPickStrategy{
 		cluster:         c,
 		strategy:        policy.Strategy,
 		flowControl:     c.GetFlowSchema(policy.FlowControlSchemaName),
 		flowControlName: flowControlName,
 		enableLog:       isLogEnabled(logging.Mode, policy.LogMode),
+		cursorScope:     fmt.Sprintf("policy/%d:", policyIndex),
 	}
 
 	if len(policy.UpstreamSubset) != 0 {
